@@ -42,6 +42,14 @@ _DVAR = ["dict"]
 # dtype variant of the case in progress: "f64" (all tensors float64) or "mixed" (alias class k has dtype
 # float32 / float64 / complex128 by k mod 3, with values that are NOT representable in the narrower dtypes)
 _DTV = ["f64"]
+# shape variant: "mixed" (shape by alias class index: (), (2,), (2,2)) or "same" (every tensor has shape (3,):
+# several listed tensors of ONE shape with more than one element)
+_SHV = ["mixed"]
+
+
+def _cls_shape(k):
+    return (3,) if _SHV[0] == "same" else SHAPES[k % 3]
+
 _MIXED = [torch.float32, torch.float64, torch.complex128]
 
 
@@ -162,6 +170,7 @@ def cases(tier, seed):
                 if max(part) < 1:
                     continue
                 out.append({"spec": spec, "part": part, "nodes": n, "depth": 2, "dtv": "mixed"})
+                out.append({"spec": spec, "part": part, "nodes": n, "depth": 2, "shv": "same"})
     # dictionary variants: every structure with <= 3 (quick) / 4 (thorough) nodes that contains a dictionary
     for n in range(2, (4 if tier == "quick" else 5)):
         for spec in _trees(n):
@@ -179,7 +188,7 @@ def build(spec, part):
     """returns obj, slots (tensor objects in traversal order), tuple_tensors"""
     nclass = (max(part) + 1) if part else 0
     import math
-    ctens = [(torch.arange(1, 1 + math.prod(SHAPES[k % 3]), dtype=torch.float64).reshape(SHAPES[k % 3]) + 10.0 * k
+    ctens = [(torch.arange(1, 1 + math.prod(_cls_shape(k)), dtype=torch.float64).reshape(_cls_shape(k)) + 10.0 * k
               ).to(_cls_dtype(k)) + _frac(_cls_dtype(k)) for k in range(nclass)]
     slots = []
     tts = []
@@ -543,6 +552,7 @@ def run_case(cfg):
     spec, part, depth = cfg["spec"], cfg["part"], cfg["depth"]
     _DVAR[0] = cfg.get("dvar", "dict")
     _DTV[0] = cfg.get("dtv", "f64")
+    _SHV[0] = cfg.get("shv", "mixed")
     viol = []
     table = {}
     n_exec = 0
